@@ -10,7 +10,7 @@
 (*                       (guns/http/base.go Shoot, netsample getErrno)     *)
 (*   Tags(t, at, elems)  ammo tag, auto-tag, __EMPTY__ (base.go autotag)   *)
 (*   Expected(c)         the sequence of samples one shot of case c must   *)
-(*                       report, as <<[tags, proto, netzero]>>             *)
+(*                       report, as <<[tags, proto, net]>>                 *)
 (*                                                                         *)
 (* State part: OneSamplePerRequest.  An instance takes ammo (Acquire gives *)
 (* it the next id), begins a shot, the gun reports samples to the          *)
@@ -22,7 +22,8 @@
 (*                                                                         *)
 (* Variant: "spec", or a deliberately wrong variant (negative controls):   *)
 (* "swap" (proto and net swapped), "grpc_internal" (Internal mapped like   *)
-(* Unavailable), "double" (failed exchange reported twice), "id_local"     *)
+(* Unavailable), "double" (failed exchange reported twice), "double_post"  *)
+(* (scenario step with a failing postprocessor reported twice), "id_local" *)
 (* (id counter per instance), "depth_off" (auto-tag takes depth+1          *)
 (* elements), "no_empty" (no __EMPTY__ tag).                               *)
 (***************************************************************************)
@@ -99,37 +100,80 @@ NoAuto == [enabled |-> FALSE, depth |-> 2, notagonly |-> TRUE]
 (*                                               target never answers (DeadlineExceeded)         *)
 (*   [kind |-> "invalid"]                        http gun handed an ammo flagged invalid (one   *)
 (*                                               sample, __EMPTY__, proto 0; net not fixed)     *)
-(*   [kind |-> "httpscn", name, steps]           http scenario gun; steps = <<[name, out]>>     *)
-(*   [kind |-> "grpcscn", name, steps]           grpc scenario gun; steps = <<[tag, status]>>   *)
+(*   [kind |-> "httpscn", name, steps]           http scenario gun;                             *)
+(*                                               steps = <<[name, pre, out, post, sleep]>>      *)
+(*   [kind |-> "grpcscn", name, steps]           grpc scenario gun;                             *)
+(*                                               steps = <<[tag, pre, status, post, want]>>     *)
+(* A scenario step runs  preprocessor -> template -> exchange -> postprocessors (-> sleep):     *)
+(*   pre  "none" | "ok" | "fail" (preprocessor refers to a missing variable) | "tmplfail"       *)
+(*        (the request template cannot be rendered): with fail / tmplfail NO request is sent    *)
+(*   out / status   what the target answers (http: exchange outcome, grpc: status code)         *)
+(*   post "none" | "pass" | "assertfail" (assert/response not satisfied) | "extractfail"        *)
+(*        (http: var/jsonpath on a non-JSON body; grpc: assert on a payload that is not there)  *)
+(*   want (grpc) the code the step's status assert expects - GrpcCode(status) for "pass",       *)
+(*        computed here so that the driver needs no table                                       *)
+(* A step that fails - before, in, or after its exchange - ends the shot: the later steps are   *)
+(* not executed and report nothing.  Every executed step reports exactly ONE sample.            *)
 Failed(o) == ~ResponseArrived(o)
+PreFails(st)  == st.pre \in {"fail", "tmplfail"}
+PostFails(st) == st.post \in {"assertfail", "extractfail"}
 
-\* steps executed by a scenario shot: up to and including the first failed exchange
-RECURSIVE Executed(_)
-Executed(steps) == IF steps = <<>> THEN <<>>
-                   ELSE IF Failed(Head(steps).out) THEN <<Head(steps)>>
-                   ELSE <<Head(steps)>> \o Executed(Tail(steps))
+HttpStepStops(st) == PreFails(st) \/ Failed(st.out) \/ PostFails(st)
+GrpcStepStops(st) == PreFails(st) \/ PostFails(st)          \* a non-OK status alone does not stop a grpc scenario
 
-Sample(tags, proto, netzero) == [tags |-> tags, proto |-> proto, netzero |-> netzero]
+\* steps executed by a scenario shot: up to and including the first step that fails
+RECURSIVE ExecutedBy(_, _)
+ExecutedBy(Stops(_), steps) == IF steps = <<>> THEN <<>>
+                               ELSE IF Stops(Head(steps)) THEN <<Head(steps)>>
+                               ELSE <<Head(steps)>> \o ExecutedBy(Stops, Tail(steps))
+Executed(c) == IF c.kind = "httpscn" THEN ExecutedBy(HttpStepStops, c.steps) ELSE ExecutedBy(GrpcStepStops, c.steps)
+
+\* net: "zero" | "nonzero" | "any" (the statement does not pin it)
+Sample(tags, proto, net) == [tags |-> tags, proto |-> proto, net |-> net]
+NetOf(zero) == IF zero THEN "zero" ELSE "nonzero"
+
+\* the sample of one executed http scenario step
+HttpStepSample(name, st) ==
+    LET tags == <<name \o "." \o st.name>>
+        s    == HttpSample(st.out)
+    IN  IF PreFails(st)        THEN Sample(tags, 0, "any")              \* nothing was sent: no status
+        ELSE IF Failed(st.out) THEN Sample(tags, s.proto, NetOf(s.netzero))
+        ELSE IF PostFails(st)  THEN Sample(tags, s.proto, "any")        \* the status received; pandora marks the failed assert in net
+        ELSE Sample(tags, s.proto, NetOf(s.netzero))
+GrpcStepSample(name, st) ==
+    LET tags == <<name \o "." \o st.tag>>
+    IN  IF PreFails(st) THEN Sample(tags, 0, "zero") ELSE Sample(tags, GrpcCode(st.status), "zero")
 
 Expected(c) ==
     CASE c.kind = "http" ->
             LET s == HttpSample(c.out)
-                one == <<Sample(Tags("", NoAuto, <<>>), s.proto, s.netzero)>>
+                one == <<Sample(Tags("", NoAuto, <<>>), s.proto, NetOf(s.netzero))>>
             IN  IF Variant = "double" /\ Failed(c.out) THEN one \o one ELSE one
       [] c.kind = "tag" ->
-            <<Sample(Tags(c.tag, c.at, c.elems), 200, TRUE)>>
+            <<Sample(Tags(c.tag, c.at, c.elems), 200, "zero")>>
       [] c.kind = "grpc" ->
-            <<Sample(<<"g">>, GrpcCode(c.status), TRUE)>>
+            <<Sample(<<"g">>, GrpcCode(c.status), "zero")>>
       [] c.kind = "grpcfail" ->                     \* statuses produced by the client itself
-            <<Sample(<<"g">>, GrpcCode(IF c.what = "refused" THEN 14 ELSE 4), TRUE)>>
+            <<Sample(<<"g">>, GrpcCode(IF c.what = "refused" THEN 14 ELSE 4), "zero")>>
       [] c.kind = "invalid" ->                      \* nothing is sent: no status, no tag of its own
-            <<Sample(Tags("", NoAuto, <<>>), 0, TRUE)>>
+            <<Sample(Tags("", NoAuto, <<>>), 0, "any")>>
       [] c.kind = "httpscn" ->
-            LET ex == Executed(c.steps)
-            IN  [k \in 1..Len(ex) |-> LET s == HttpSample(ex[k].out)
-                                      IN  Sample(<<c.name \o "." \o ex[k].name>>, s.proto, s.netzero)]
+            LET ex == Executed(c)
+                one(k) == <<HttpStepSample(c.name, ex[k])>>
+                \* negative control: a step whose postprocessor fails is reported by the step AND by its caller
+                rep(k) == IF Variant = "double_post" /\ PostFails(ex[k]) /\ ~PreFails(ex[k]) /\ ~Failed(ex[k].out)
+                          THEN one(k) \o one(k) ELSE one(k)
+                RECURSIVE Cat(_)
+                Cat(k) == IF k > Len(ex) THEN <<>> ELSE rep(k) \o Cat(k + 1)
+            IN  Cat(1)
       [] c.kind = "grpcscn" ->
-            [k \in 1..Len(c.steps) |-> Sample(<<c.name \o "." \o c.steps[k].tag>>, GrpcCode(c.steps[k].status), TRUE)]
+            LET ex == Executed(c)
+            IN  [k \in 1..Len(ex) |-> GrpcStepSample(c.name, ex[k])]
+
+\* the steps whose request must reach the target: the executed ones that got as far as sending (by label);
+\* nothing of a step after the failed one, nothing of a step that failed before sending
+SentSteps(c) == LET ex == Executed(c)
+                IN  {IF c.kind = "httpscn" THEN ex[k].name ELSE ex[k].tag : k \in {j \in DOMAIN ex : ~PreFails(ex[j])}}
 
 \* cases for which the statement fixes the NUMBER of samples only
 CountOnly(c) == c.kind = "grpcbad"
@@ -140,7 +184,9 @@ ExpectedCount(c) == IF CountOnly(c) THEN 1 ELSE Len(Expected(c))
 TagsMatch(c, got, want) == IF c.kind \in {"httpscn", "grpcscn"} THEN got # <<>> /\ got[1] = want[1] ELSE got = want
 CountOK(c, rep) == Len(rep) = ExpectedCount(c)
 ProtoOK(c, rep) == CountOnly(c) \/ \A k \in DOMAIN rep : k \in DOMAIN Expected(c) => rep[k].proto = Expected(c)[k].proto
-NetOK(c, rep)   == CountOnly(c) \/ c.kind = "invalid" \/ \A k \in DOMAIN rep : k \in DOMAIN Expected(c) => (rep[k].net = 0) = Expected(c)[k].netzero
+NetOK(c, rep)   == CountOnly(c) \/ \A k \in DOMAIN rep : k \in DOMAIN Expected(c) =>
+                                       \/ Expected(c)[k].net = "any"
+                                       \/ (rep[k].net = 0) = (Expected(c)[k].net = "zero")
 TagOK(c, rep)   == CountOnly(c) \/ \A k \in DOMAIN rep : k \in DOMAIN Expected(c) => TagsMatch(c, rep[k].tags, Expected(c)[k].tags)
 
 -----------------------------------------------------------------------------
@@ -183,7 +229,7 @@ ShootBegin(i) == /\ ph[i] = "armed"
 \* the gun reports the next sample its case demands
 Report(i) == /\ ph[i] = "shooting" /\ Len(rep[i]) < Len(Expected(cur[i]))
              /\ LET e == Expected(cur[i])[Len(rep[i]) + 1]
-                IN  ReportEff(i, [tags |-> e.tags, proto |-> e.proto, net |-> IF e.netzero THEN 0 ELSE 999])
+                IN  ReportEff(i, [tags |-> e.tags, proto |-> e.proto, net |-> IF e.net = "zero" THEN 0 ELSE 999])
              /\ UNCHANGED <<ph, cur, shots, myid, ctr, ids>>
 
 ShootEnd(i) == /\ ph[i] = "shooting" /\ Len(rep[i]) = Len(Expected(cur[i]))
@@ -194,10 +240,8 @@ Next == \E i \in Inst : Acquire(i) \/ ShootBegin(i) \/ Report(i) \/ ShootEnd(i)
 Spec == Init /\ [][Next]_vars
 
 \* ---- properties ----
-\* requests a shot of case c fires (scenario: its executed steps), independently of Expected
-Fired(c) == CASE c.kind = "httpscn" -> Len(Executed(c.steps))
-              [] c.kind = "grpcscn" -> Len(c.steps)
-              [] OTHER -> 1
+\* requests a shot of case c fires / steps it executes (scenario), independently of Expected
+Fired(c) == IF c.kind \in {"httpscn", "grpcscn"} THEN Len(Executed(c)) ELSE 1
 
 TypeOK == /\ \A i \in Inst : ph[i] \in {"idle", "armed", "shooting"}
           /\ \A i \in Inst : shots[i] \in 0..MaxShots
